@@ -369,7 +369,8 @@ theorem save_memsz_ge_filesz (o : Obj) (os : OStream) (r : SaveRes) (hdr : Bytes
   exact (layoutSegment_dom false false _ _ _ _ t.lay t.lay' t.g t.g' _ f3 f2 hsd f1).1
 
 /-- **What `validate` needs** (C20): the object left by a successful `save` of a flat writer-domain
-    object whose SHT_NULL-typed sections are empty satisfies `LayoutOk` — file ranges of all
+    object whose SHT_NULL-typed sections are empty and whose PT_LOAD segments (with file size > 0)
+    are among the selected, non-nested ones satisfies `LayoutOk` — file ranges of all
     non-empty non-NOBITS sections are pairwise disjoint without wrap-around, and the PROGBITS
     section containing the first file byte of a PT_LOAD segment with file size > 0 is a member of
     that segment at the same distance in file and memory. -/
@@ -379,7 +380,9 @@ theorem save_layoutOk (o : Obj) (os : OStream) (r : SaveRes) (hdr : Bytes)
     (h0 : ∀ (i : Nat) (s : SecBuf), o.secs[i]? = some s → s.Occ → s.index ≠ 0)
     (hnull0 : ∀ s ∈ o.secs, s.stype = BitVec.ofNat 32 SHT_NULL → s.size = 0)
     (hnw : layoutNW (preSave o) hdr = true) (hnd : (o.segs.map (·.index)).Nodup)
-    (hdom : layoutDomB false false (fun _ => true) (preSave o) hdr = true) : LayoutOk r.obj := by
+    (sel : Nat → Bool) (hdom : layoutDomB false false sel (preSave o) hdr = true)
+    (hsel : ∀ g ∈ r.obj.segs, g.stype = BitVec.ofNat 32 PT_LOAD → 0 < g.filesz.toNat → sel g.index = true) :
+    LayoutOk r.obj := by
   obtain ⟨hin, hdisj, hlt, -⟩ := layout_disjoint o os r hdr hs hok hh hn h0 hnw
   have hn' : (preSave o).secs.length < 65536 := by rw [preSave_length]; exact hn
   have h0' := preSave_h0 o h0
@@ -413,8 +416,9 @@ theorem save_layoutOk (o : Obj) (os : OStream) (r : SaveRes) (hdr : Bytes)
     omega
   · intro g hg hload hfs s hm hpb h1 h2
     obtain ⟨res, hl, hsegs, -, he⟩ := save_secs_hdr o os r hdr hs hok hh
+    have hsg := hsel g hg hload hfs
     rw [hsegs] at hg
-    obtain ⟨-, -, -, f4⟩ := final_segments false false (preSave o) hdr res hl hnw hn' h0' hnd _ hdom g hg rfl
+    obtain ⟨-, -, -, f4⟩ := final_segments false false (preSave o) hdr res hl hnw hn' h0' hnd sel hdom g hg hsg
     obtain ⟨k, hk⟩ := List.getElem?_of_mem hm
     obtain ⟨s', hs', hhs⟩ := hdrOf_getElem? he k s hk
     have hso : s.Occ := hocc s hm (by rw [hpb]; decide) (by omega)
@@ -507,26 +511,76 @@ theorem file_covers (o : Obj) (os : OStream) (r : SaveRes) (hdr : Bytes)
   have := (hin k s hk ho).2
   omega
 
+/-! ### nested segments -/
+
+/-- **Members of a nested segment are equidistant too.**  `n` is a segment whose first member had
+    already been generated when its turn came (`segNestedStartB`, e.g. a PT_NOTE or PT_TLS inside a
+    PT_LOAD): it starts at that member's offset.  If every member of `n` is also a member of a
+    selected flat segment `e` (for which `save_segments` holds), the first member `sf` occupies file
+    space and `n.vaddr` is `sf`'s address (writer domain: "a nested segment's vaddr is its first
+    member's address"), then every file-occupying member of `n` is at the same distance from `n`'s
+    start in file and memory. -/
+theorem save_nested_equidistant (o : Obj) (os : OStream) (r : SaveRes) (hdr : Bytes)
+    (hs : save o os = .ok r) (hok : r.ok = true) (hh : o.hdr = some hdr)
+    (hn : o.secs.length < 65536)
+    (h0 : ∀ (i : Nat) (s : SecBuf), o.secs[i]? = some s → s.Occ → s.index ≠ 0)
+    (hnw : layoutNW (preSave o) hdr = true) (hnd : (o.segs.map (·.index)).Nodup)
+    (selE selN : Nat → Bool) (hdom : layoutDomB false false selE (preSave o) hdr = true)
+    (hnest : layoutSelB segNestedStartB selN (preSave o) hdr = true)
+    (e n : Seg) (he : e ∈ r.obj.segs) (hsn : n ∈ r.obj.segs)
+    (hselE : selE e.index = true) (hselN : selN n.index = true)
+    (hsub : ∀ idx ∈ n.secs, idx ∈ e.secs) :
+    ∃ f sf, n.secs.head? = some f ∧ r.obj.secs[f.toNat]? = some sf ∧ n.offset = sf.offset ∧
+      (sf.Occ → n.vaddr = sf.addr →
+        ∀ idx ∈ n.secs, ∀ (s : SecBuf), r.obj.secs[idx.toNat]? = some s → s.Occ →
+          s.offset - n.offset = s.addr - n.vaddr) := by
+  obtain ⟨res, hl, hsegs, -, hmap⟩ := save_secs_hdr o os r hdr hs hok hh
+  have hn' : (preSave o).secs.length < 65536 := by rw [preSave_length]; exact hn
+  have h0' := preSave_h0 o h0
+  have hsn' := hsn
+  rw [hsegs] at hsn'
+  obtain ⟨f, sf', hhead, hsf', hoff⟩ := final_nested_start (preSave o) hdr res hl hnw hn' h0' hnd selN hnest n hsn' hselN
+  -- the same position in the saved object
+  obtain ⟨sf, hsf, hhsf⟩ : ∃ sf, r.obj.secs[f.toNat]? = some sf ∧ hdrOf sf = hdrOf sf' := by
+    have h1 : (r.obj.secs.map hdrOf)[f.toNat]? = some (hdrOf sf') := by
+      rw [hmap, List.getElem?_map, hsf']; rfl
+    rw [List.getElem?_map] at h1
+    cases hq : r.obj.secs[f.toNat]? with
+    | none => rw [hq] at h1; exact nomatch h1
+    | some t0 => rw [hq] at h1; exact ⟨t0, rfl, by simpa using h1⟩
+  simp only [hdrOf, Prod.mk.injEq] at hhsf
+  refine ⟨f, sf, hhead, hsf, by rw [hoff, hhsf.1], ?_⟩
+  intro hfo hva idx hidx s hk ho
+  have hfm : f ∈ n.secs := by
+    cases hq : n.secs with
+    | nil => rw [hq] at hhead; exact nomatch hhead
+    | cons a b => rw [hq] at hhead; simp only [List.head?_cons, Option.some.injEq] at hhead; subst hhead; exact List.mem_cons_self
+  obtain ⟨-, -, fe⟩ := save_segments false false o os r hdr hs hok hh hn h0 hnw hnd selE hdom e he hselE
+  have e1 := (fe idx (hsub idx hidx) s hk).1 ho
+  have e2 := (fe f (hsub f hfm) sf hsf).1 hfo
+  have e3 : n.offset = sf.offset := by rw [hoff, hhsf.1]
+  rw [e3, hva]
+  bv_omega
+
 /-! ### what is not proved -/
 
-/-- NOT PROVED (kept visible): the member clauses of `save_segments` for a *nested* segment — one
-    whose members were generated by an earlier, enclosing segment (e.g. a PT_NOTE/PT_TLS inside a
-    PT_LOAD).  There `seg_start_pos` is the first member's offset and the sizes are accumulated
-    through `wsd_gap_generated`; the proof needs the writer-domain facts "the nested segment's
-    vaddr is its first member's address, its members are consecutive members of the enclosing
-    segment" and the enclosing segment's equidistance (`member_equidistant`) for *all* its members
-    (also address-less NOBITS ones).  For nested segments only `save_memsz_ge_filesz` is proved; the
-    correspondence check and the oracle cover them. -/
+/-- NOT PROVED (kept visible): for a *nested* segment (members generated by an enclosing segment)
+    the remaining member clauses — members inside the nested segment's file range, its memory size
+    covering them, `p_offset ≡ p_vaddr (mod p_align)` (needs "the nested alignment divides the
+    enclosing one").  They need the arithmetic of the `wsd_gap_generated` branch (the running sizes
+    are re-derived from the members' offsets).  Proved for nested segments: `save_memsz_ge_filesz`
+    and `save_nested_equidistant`; the correspondence check and the oracle cover the rest. -/
 def NestedSegmentStatement : Prop :=
   ∀ (o : Obj) (os : OStream) (r : SaveRes) (hdr : Bytes),
     save o os = .ok r → r.ok = true → o.hdr = some hdr → o.secs.length < 65536 →
     (∀ (i : Nat) (s : SecBuf), o.secs[i]? = some s → s.Occ → s.index ≠ 0) →
     layoutNW (preSave o) hdr = true → (o.segs.map (·.index)).Nodup →
     layoutDomAllB (preSave o) hdr = true →
-    -- writer domain for nested segments: starts at its first member's address
-    (∀ g ∈ o.segs, ∀ f ∈ g.secs.head?, ∀ s ∈ o.secs[f.toNat]?, s.addrSet = true → g.vaddr = s.addr) →
-    ∀ g ∈ r.obj.segs, ∀ idx ∈ g.secs, ∀ (s : SecBuf), r.obj.secs[idx.toNat]? = some s → s.Occ →
-      s.offset - g.offset = s.addr - g.vaddr
+    ∀ (selN : Nat → Bool), layoutSelB segNestedStartB selN (preSave o) hdr = true →
+    ∀ n ∈ r.obj.segs, selN n.index = true →
+      ∀ idx ∈ n.secs, ∀ (s : SecBuf), r.obj.secs[idx.toNat]? = some s → s.Occ →
+        n.offset.toNat ≤ s.offset.toNat ∧ s.endN ≤ n.offset.toNat + n.filesz.toNat ∧
+        (s.addr - n.vaddr).toNat + s.size.toNat ≤ n.memsz.toNat
 
 /-! ### concrete objects: non-vacuity, and the F14 witness -/
 
@@ -580,6 +634,31 @@ example : (match save exObj {} with
         decide (ehdrSize exObj.cls ≤ exHdr.length) && decide (r.obj.curPos.toNat ≤ r.os.content.length)
     | _ => false) = true := by
   set_option maxRecDepth 100000 in decide
+
+/-- a PT_LOAD over `.text` and `.note` (explicit addresses) and a nested PT_NOTE over `.note` -/
+def exNested : Obj :=
+  { cls := .c64, enc := .lsb, hdr := some exHdr,
+    secs := [ { SecBuf.fresh .c64 0 with index := 0 },
+              { SecBuf.fresh .c64 3 with index := 1, size := 17, addrAlign := 1 },
+              { SecBuf.fresh .c64 1 with index := 2, size := 24, addrAlign := 16, flags := 6,
+                                         addr := 0x401000, addrSet := true },
+              { SecBuf.fresh .c64 7 with index := 3, size := 10, addrAlign := 4, flags := 2,
+                                         addr := 0x401020, addrSet := true } ],
+    segs := [ { stype := 1, vaddr := 0x401000, align := 0x1000, secs := [2, 3], index := 0 },
+              { stype := 4, vaddr := 0x401020, align := 4, secs := [3], index := 1 } ] }
+
+/-- `exNested` meets the hypotheses of `save_nested_equidistant` (enclosing segment 0, nested
+    segment 1), of `save_memsz_ge_filesz`, and its nested PT_NOTE ends up at `.note`'s offset with
+    `.note`'s address -/
+example :
+    layoutNW (preSave exNested) exHdr = true ∧ (exNested.segs.map (·.index)).Nodup ∧
+    layoutDomB false false (fun i => i == 0) (preSave exNested) exHdr = true ∧
+    layoutSelB segNestedStartB (fun i => i == 1) (preSave exNested) exHdr = true ∧
+    layoutDomAllB (preSave exNested) exHdr = true ∧
+    layoutIs (preSave exNested) exHdr (fun r =>
+      r.segs.map (fun g => (g.offset, g.filesz, g.memsz)) == [(0x1000, 42, 42), (0x1020, 10, 10)] &&
+      r.secs.map (·.offset) == [0, 0x102a, 0x1000, 0x1020]) = true := by
+  refine ⟨by decide, by decide, by decide, by decide, by decide, by decide⟩
 
 /-- F14: a PT_LOAD whose only member is a NOBITS section with the *explicit* address `vaddr + 0x24` -/
 def f14Obj : Obj :=
